@@ -143,8 +143,11 @@ TReadLockFail ==     \* the lock does not exist (silent: no cached ID), or it ca
   /\ Adv /\ Keep /\ UNCHANGED fsvars
   /\ IF Ev.err = 2 /\ ~Ev.injected
        THEN p' = [p EXCEPT !.pc = "handlers", !.cached = NoRef] /\ g' = g /\ Say(<<>>)
-       ELSE p' = [p EXCEPT !.pc = "exit2"] /\ g' = [g EXCEPT !.faults = @ + 1]
-            /\ Say(IF Ev.op = "stat" THEN <<{24}>> ELSE <<{32}, {24}>>)
+       ELSE IF p.mode = "check"     \* checking does not need the lock: a warning, nothing cached
+         THEN p' = [p EXCEPT !.pc = "handlers", !.cached = NoRef] /\ g' = [g EXCEPT !.faults = @ + 1]
+              /\ Say(IF Ev.op = "stat" THEN <<{39}>> ELSE <<{32}, {39}>>)
+         ELSE p' = [p EXCEPT !.pc = "exit2"] /\ g' = [g EXCEPT !.faults = @ + 1]
+              /\ Say(IF Ev.op = "stat" THEN <<{24}>> ELSE <<{32}, {24}>>)
 TDiscoverFail ==     \* the source directory cannot be examined: "Code discovery error" / "No files found"
   /\ good /\ p.pc = "discover" /\ Has /\ Ev.ev = "op" /\ Ev.cls = "other" /\ ~Ev.ok /\ Ev.injected
   /\ FinishInterrupted(XNonZero) /\ Adv /\ Keep /\ Say(IF Ev.raw = "stat" THEN <<{1, 2}, FailCode>> ELSE <<FailCode>>) /\ UNCHANGED fsvars
